@@ -8,6 +8,7 @@ escaped byte has to decode back to itself).  The encode sets are the regenerated
 only breaks `self_match`.
 -/
 import RioModel.Proofs.Url
+import RioModel.Proofs.UrlRouterBridge
 set_option linter.unusedSimpArgs false
 set_option linter.unusedVariables false
 
@@ -48,7 +49,9 @@ theorem parse_sanitized (q : Bytes) (hq : IsBytes q) : parseQuery (sanitize q) =
 /-- **A rule whose source is the literal path and query of `u` matches the request for `u`**, under
 every configuration, for every URL inside the decidable domain `WFurl cfg u` (Model/Url.lean:
 sanitised URL accepted by `PathAndQuery`, non-empty path, no ignored marketing parameter in `u`,
-the empty parameter `=` not combined with others).  Repeated keys are allowed. -/
+the empty parameter `=` not combined with others).  Repeated keys are allowed.
+This is the PARTIAL statement: the unqualified one (`SelfMatchFull`, below) is false of the code; the four clauses of
+`WFurl` are the four recorded findings `self-match-*`, not restrictions of the property's quantifier. -/
 theorem self_match (cfg : Cfg) (u : Bytes) (hb : IsBytes u) (hwf : WFurl cfg u = true) :
     ruleKey cfg u = reqKey cfg u :=
   ruleKey_eq_reqKey cfg u hb hwf
@@ -93,6 +96,31 @@ theorem self_match_fails_rejected :
 theorem self_match_fails_marketing :
     ruleMatches cfgDefault ([47, 97, 63] ++ [117, 116, 109, 95, 115, 111, 117, 114, 99, 101])
       ([47, 97, 63] ++ [117, 116, 109, 95, 115, 111, 117, 114, 99, 101]) = false := by decide
+
+/-- The property as stated: **under every router configuration, a rule whose source is the literal path and query of a
+URL matches a request for that URL.** -/
+def SelfMatchFull : Prop := ∀ (cfg : Cfg) (u : Bytes), IsBytes u → ruleMatches cfg u u = true
+
+/-- It is FALSE of the code, in four independent ways (the four witnesses above; known findings
+`self-match-empty-param`, `self-match-empty-path`, `self-match-rejected-by-pathandquery`,
+`self-match-marketing-param`).  `self_match` is what holds: the statement restricted to `WFurl`. -/
+theorem self_match_full_fails : ¬ SelfMatchFull := by
+  intro h
+  have := h cfgDefault [47, 97, 63, 61, 38, 97] (by decide)
+  rw [self_match_fails_empty_param] at this
+  cases this
+
+/-- each of the four classes refutes it on its own -/
+theorem self_match_full_fails_each :
+    (∃ u, IsBytes u ∧ (paramsOf u).contains ([], []) = true ∧ ruleMatches cfgDefault u u = false) ∧
+    (∃ u, IsBytes u ∧ (splitFirst 63 u).1 = [] ∧ ruleMatches cfgDefault u u = false) ∧
+    (∃ u, IsBytes u ∧ (pqParse (sanitize u)).isSome = false ∧ ruleMatches cfgDefault u u = false) ∧
+    (∃ u, IsBytes u ∧ (paramsOf u).any (fun kv => isMarketing cfgDefault kv.1) = true ∧
+      ruleMatches cfgDefault u u = false) :=
+  ⟨⟨[47, 97, 63, 61, 38, 97], by decide, by decide, by decide⟩,
+   ⟨[63, 97], by decide, by decide, by decide⟩,
+   ⟨[47, 96, 63, 98, 38, 97], by decide, by decide, by decide⟩,
+   ⟨[47, 97, 63] ++ [117, 116, 109, 95, 115, 111, 117, 114, 99, 101], by decide, by decide, by decide⟩⟩
 
 /-! ### order independence -/
 
@@ -330,6 +358,79 @@ theorem separation_no_match (cfg : Cfg) (hic : cfg.ignoreCase = false) (u u' : B
     rcases hdiff with h | h
     · exact absurd this.1 h
     · exact absurd this.2 h
+
+/-- **Separation under `ignore_path_and_query_case`: equal keys force equal paths and equal (non-marketing) decoded
+parameter lists UP TO ASCII CASE** — URLs that differ by more than the case of ASCII letters get different keys also
+when the flag is set (same hypotheses otherwise; `lowerKV` lower-cases name and value). -/
+theorem separation_ignore_case (cfg : Cfg) (hic : cfg.ignoreCase = true) (u u' : Bytes)
+    (hb : IsBytes u) (hb' : IsBytes u')
+    (hacc : (pqParse (sanitize u)).isSome = true) (hacc' : (pqParse (sanitize u')).isSome = true)
+    (hpl : ∀ kv ∈ (paramsOf u).filter (notMarketing cfg), Plain kv)
+    (hpl' : ∀ kv ∈ (paramsOf u').filter (notMarketing cfg), Plain kv)
+    (hkey : reqKey cfg u = reqKey cfg u') :
+    lowerAscii (pqPath (sanitize (splitFirst 63 u).1)) = lowerAscii (pqPath (sanitize (splitFirst 63 u').1)) ∧
+    ((paramsOf u).filter (notMarketing cfg)).map lowerKV = ((paramsOf u').filter (notMarketing cfg)).map lowerKV := by
+  unfold reqKey at hkey
+  rw [fromConfig_accepted cfg u hb hacc, fromConfig_accepted cfg u' hb' hacc'] at hkey
+  simp only [PQS.key, hic, lowerIf, if_true] at hkey
+  have h63 : ∀ w : Bytes, 63 ∉ pqPath (sanitize (splitFirst 63 w).1) := fun w =>
+    not_mem_pqPath_63 (not_mem_pctEncode_of_not_mem isDelim_63 (not_mem_splitFirst_fst 63 w))
+  exact lower_npq_inj cfg (h63 u) (h63 u') hpl hpl' hkey
+
+/-- … so, with the flag, a rule built from `u` (inside `WFurl`) does not match a request whose path or parameters
+differ by more than ASCII case. -/
+theorem separation_ignore_case_no_match (cfg : Cfg) (hic : cfg.ignoreCase = true) (u u' : Bytes)
+    (hb : IsBytes u) (hb' : IsBytes u') (hwf : WFurl cfg u = true)
+    (hacc' : (pqParse (sanitize u')).isSome = true)
+    (hpl : ∀ kv ∈ (paramsOf u).filter (notMarketing cfg), Plain kv)
+    (hpl' : ∀ kv ∈ (paramsOf u').filter (notMarketing cfg), Plain kv)
+    (hdiff : lowerAscii (pqPath (sanitize (splitFirst 63 u).1)) ≠ lowerAscii (pqPath (sanitize (splitFirst 63 u').1)) ∨
+      ((paramsOf u).filter (notMarketing cfg)).map lowerKV ≠ ((paramsOf u').filter (notMarketing cfg)).map lowerKV) :
+    ruleMatches cfg u u' = false := by
+  cases hm : ruleMatches cfg u u' with
+  | false => rfl
+  | true =>
+    unfold ruleMatches matchesKey at hm
+    rw [self_match cfg u hb hwf] at hm
+    have hkey : reqKey cfg u = reqKey cfg u' := by simpa using hm
+    have hacc := ((WFurl_iff cfg u).mp hwf).1
+    have := separation_ignore_case cfg hic u u' hb hb' hacc hacc' hpl hpl' hkey
+    rcases hdiff with h | h
+    · exact absurd this.1 h
+    · exact absurd this.2 h
+
+/-- **The case flag only ever sees ASCII text, on both sides.**  Rust applies the Unicode `str::to_lowercase`; the
+model applies ASCII lower-casing.  They coincide because the text that is lower-cased — the key of the case-sensitive
+configuration — is pure ASCII for EVERY URL: `sanitize_url` / `utf8_percent_encode` escape every non-ASCII byte before
+the flag is applied. -/
+theorem lowercased_text_ascii (cfg : Cfg) (u : Bytes) :
+    reqKey cfg u = lowerIf cfg.ignoreCase (reqKey { cfg with ignoreCase := false } u) ∧
+    Ascii (reqKey { cfg with ignoreCase := false } u) ∧
+    ruleKey cfg u = lowerIf cfg.ignoreCase (ruleKey { cfg with ignoreCase := false } u) ∧
+    Ascii (ruleKey { cfg with ignoreCase := false } u) := by
+  refine ⟨?_, ascii_reqKey _ u, ?_, ascii_ruleKey _ u⟩
+  · have h1 : ∀ c : Cfg, (fromConfig c u).key = lowerIf c.ignoreCase (fromConfig c u).pathAndQuery := by
+      intro c
+      unfold fromConfig
+      simp only
+      split <;> simp [PQS.key]
+    have h2 : (fromConfig { cfg with ignoreCase := false } u).pathAndQuery = (fromConfig cfg u).pathAndQuery := by
+      unfold fromConfig
+      simp only
+      split
+      · rfl
+      · rfl
+    unfold reqKey
+    rw [h1 cfg, h1 { cfg with ignoreCase := false }, h2]
+    simp [lowerIf]
+  · simp [ruleKey, ruleKeyOf, lowerIf]
+
+/-- consequence, and a limit of the flag in the code: the case of NON-ASCII letters is never ignored — `/É` and `/é`
+(`/%C3%89`, `/%C3%A9` after sanitising) keep different keys under `ignore_path_and_query_case` (the escapes are
+lower-cased, not the letters they stand for). -/
+theorem case_flag_ascii_letters_only :
+    reqKey cfgCase [47, 195, 137] = [47, 37, 99, 51, 37, 56, 57] ∧
+    reqKey cfgCase [47, 195, 169] = [47, 37, 99, 51, 37, 97, 57] := by decide
 
 /-- The excluded point is real: a decoded value containing `%20` collides with a space
 (`/a?x=%2520` and `/a?x=%20` get the same key). -/
